@@ -131,11 +131,26 @@ type Path struct {
 	userData         map[string]interface{}
 	observes         []obsRec
 	envNondet        bool
+	model            map[string]uint64
+	modelUpTo        int
+	modelMemo        map[int]*Term
+	modelHits        int
+	pendObl          []pendingObl
+}
+
+type pendingObl struct {
+	cond                             *Term
+	kind, label, site, pos, detail string
 }
 
 func (p *Path) checking() bool { return len(p.decisions) >= len(p.prefix) }
 
-func (p *Path) end(reason string) { panic(pathEnd{reason}) }
+func (p *Path) end(reason string) {
+	if len(p.pendObl) > 0 && p.tolerant == 0 {
+		p.flushObligations()
+	}
+	panic(pathEnd{reason})
+}
 
 func (p *Path) unsupported(why string) {
 	if p.tolerant > 0 {
@@ -170,6 +185,9 @@ func sanitize(s string) string {
 func (p *Path) addPC(c *Term) {
 	if c.IsTrue() {
 		return
+	}
+	if len(p.pendObl) > 0 {
+		p.flushObligations()
 	}
 	p.pc = append(p.pc, c)
 	p.sol.Assert(c)
@@ -224,12 +242,41 @@ func (p *Path) branch(cond *Term) bool {
 		}
 		return d.V == 1
 	}
-	rT, _ := p.sol.Check(cond, nil)
-	var rF Result
-	if rT == Unsat && !p.pcMaybeInfeas {
-		rF = Sat
-	} else {
-		rF, _ = p.sol.Check(p.ctx.Not(cond), nil)
+	p.flushObligations()
+	p.sol.site = p.curSite
+	var rT, rF Result = -1, -1
+	if v, ok := p.evalModel(cond); ok {
+		if v {
+			rT = Sat
+		} else {
+			rF = Sat
+		}
+	}
+	if rT != Sat {
+		var m map[string]uint64
+		if rF == Sat {
+			// keep the current model for the false side; ask only about the true side
+			rT, m = p.sol.Check(cond, p.modelVars())
+			if rT == Sat {
+				p.setModelForSide(m, true)
+			}
+		} else {
+			rT, m = p.sol.Check(cond, p.modelVars())
+			if rT == Sat {
+				p.setModel(m)
+			}
+		}
+	}
+	if rF != Sat {
+		if rT == Unsat && !p.pcMaybeInfeas {
+			rF = Sat
+		} else {
+			var m map[string]uint64
+			rF, m = p.sol.Check(p.ctx.Not(cond), p.modelVars())
+			if rF == Sat && rT != Sat {
+				p.setModel(m)
+			}
+		}
 	}
 	if rT == Sat || rF == Sat {
 		p.pcMaybeInfeas = false
@@ -270,6 +317,7 @@ func (p *Path) concretize(t *Term, max int, what string) uint64 {
 		p.addPC(p.ctx.Eq(t, p.ctx.BV(t.S.W, uint64(d.V))))
 		return uint64(d.V) & mask(t.S.W)
 	}
+	p.flushObligations()
 	var vals []uint64
 	excl := p.ctx.True
 	probe := p.fresh("cz", t.S)
@@ -352,30 +400,98 @@ func (p *Path) obligation(cond *Term, kind, label, site, pos, detail string) {
 		r.mu.Unlock()
 		return
 	}
-	res, m := p.sol.Check(p.ctx.Not(cond), p.nondetTerms())
+	p.pendObl = append(p.pendObl, pendingObl{cond, kind, label, site, pos, detail})
+	if len(p.pendObl) >= 64 || p.eng.noBatch {
+		p.flushObligations()
+	}
+}
+
+// flushObligations decides all pending obligations, in one query when they all hold. It runs before every new
+// decision point, assumption and at the end of the path, so each obligation is decided under exactly the path
+// condition it was raised with (nothing is added to the path condition while obligations are pending).
+func (p *Path) flushObligations() {
+	if len(p.pendObl) == 0 {
+		return
+	}
+	pend := p.pendObl
+	p.pendObl = nil
+	r := p.res
+	all := p.ctx.True
+	for _, o := range pend {
+		all = p.ctx.And(all, o.cond)
+	}
+	if len(pend) > 1 {
+		decided := false
+		if v, ok := p.evalModel(all); ok && !v {
+			// some obligation fails under the current model: decide one by one
+		} else {
+			p.sol.site = "obligations(batch) " + pend[0].site
+			res, _ := p.sol.Check(p.ctx.Not(all), nil)
+			if res == Unsat {
+				decided = true
+				r.mu.Lock()
+				for _, o := range pend {
+					r.Obligations++
+					r.Discharged++
+					r.SiteSet[o.site] = true
+					if o.kind == "assert" {
+						r.AssertSeen[o.label]++
+					}
+					if len(r.OblSamples) < 40 {
+						r.OblSamples = append(r.OblSamples, OblRec{Harness: p.harness, Kind: o.kind, Label: o.label, Site: o.site, Verdict: "unsat(batch of " + fmt.Sprint(len(pend)) + ")", PCLen: len(p.pc)})
+					}
+				}
+				r.mu.Unlock()
+				// implied by the path condition: no need to add them
+			}
+		}
+		if decided {
+			return
+		}
+	}
+	for _, o := range pend {
+		p.decideOne(o)
+	}
+}
+
+func (p *Path) decideOne(o pendingObl) {
+	r := p.res
+	cond := o.cond
+	p.sol.site = "obligation " + o.site
+	var res Result
+	var m map[string]uint64
+	if v, ok := p.evalModel(cond); ok && !v {
+		res, m = Sat, p.model
+	} else {
+		res, m = p.sol.Check(p.ctx.Not(cond), p.modelVars())
+	}
 	r.mu.Lock()
 	r.Obligations++
-	r.SiteSet[site] = true
-	if kind == "assert" {
-		r.AssertSeen[label]++
+	r.SiteSet[o.site] = true
+	if o.kind == "assert" {
+		r.AssertSeen[o.label]++
 	}
 	if len(r.OblSamples) < 40 {
-		r.OblSamples = append(r.OblSamples, OblRec{Harness: p.harness, Kind: kind, Label: label, Site: site, Verdict: res.String(), PCLen: len(p.pc)})
+		r.OblSamples = append(r.OblSamples, OblRec{Harness: p.harness, Kind: o.kind, Label: o.label, Site: o.site, Verdict: res.String(), PCLen: len(p.pc)})
 	}
 	switch res {
 	case Unsat:
 		r.Discharged++
 	case Sat:
-		v := ViolationRec{Harness: p.harness, Kind: kind, Label: label, Site: site, Pos: pos, Detail: detail, Vector: p.modelVector(m), Path: append([]Decision{}, p.decisions...)}
+		v := ViolationRec{Harness: p.harness, Kind: o.kind, Label: o.label, Site: o.site, Pos: o.pos, Detail: o.detail, Vector: p.modelVector(m), Path: append([]Decision{}, p.decisions...)}
 		r.Violations = append(r.Violations, v)
 	default:
-		r.Inconclusive = append(r.Inconclusive, fmt.Sprintf("solver unknown on obligation %s/%s at %s", kind, label, site))
+		r.Inconclusive = append(r.Inconclusive, fmt.Sprintf("solver unknown on obligation %s/%s at %s", o.kind, o.label, o.site))
 	}
 	r.mu.Unlock()
 	if res == Sat {
 		p.pcMaybeInfeas = false
 	}
-	p.assume(cond)
+	if res != Unsat {
+		// continue under the obligation (a reported violation is not reported again further down this path)
+		p.addPC(cond)
+		p.pcMaybeInfeas = true
+	}
 }
 
 // implicit is a Go run-time check (bounds, nil, division): an obligation in panic-is-violation mode, an assumption otherwise.
@@ -405,6 +521,7 @@ func (p *Path) goPanic(msg, site string) {
 	if p.tolerant > 0 {
 		panic(tolerantFail{"panic during init: " + msg})
 	}
+	p.flushObligations()
 	if p.panicIsViolation {
 		if p.checking() {
 			res, m := p.sol.Check(p.ctx.True, p.nondetTerms())
@@ -425,4 +542,51 @@ func (p *Path) goPanic(msg, site string) {
 		p.end("panic-violation")
 	}
 	p.end("panic")
+}
+
+// ---- model reuse: the last satisfying assignment decides many feasibility questions without a query ----
+
+func (p *Path) modelVars() []*Term {
+	var vs []*Term
+	for _, v := range p.ctx.vars {
+		if v.S.K == SArr || (v.S.K == SBV && v.S.W > 64) {
+			continue
+		}
+		vs = append(vs, v)
+	}
+	return vs
+}
+
+func (p *Path) setModel(m map[string]uint64) {
+	if m == nil {
+		p.model = nil
+		return
+	}
+	p.model = m
+	p.modelUpTo = 0
+	p.modelMemo = map[int]*Term{}
+}
+
+// setModelForSide is used when the true side is taken next: the new model satisfies PC and cond.
+func (p *Path) setModelForSide(m map[string]uint64, side bool) { p.setModel(m) }
+
+// evalModel evaluates cond under the cached model if that model is known to satisfy the whole path condition.
+func (p *Path) evalModel(cond *Term) (bool, bool) {
+	if p.model == nil || p.eng.noModelReuse {
+		return false, false
+	}
+	for p.modelUpTo < len(p.pc) {
+		r := p.ctx.EvalUnder(p.pc[p.modelUpTo], p.model, p.modelMemo)
+		if !r.IsTrue() {
+			p.model = nil
+			return false, false
+		}
+		p.modelUpTo++
+	}
+	r := p.ctx.EvalUnder(cond, p.model, p.modelMemo)
+	if !r.IsConst() {
+		return false, false
+	}
+	p.modelHits++
+	return r.Val == 1, true
 }
